@@ -504,7 +504,115 @@ type Pair[K comparable, V any] interface{ Put(k K, v V) (V, bool) }
 	return append(fs, valid...)
 }
 
+// corruptions are applied to the materialisable tree of the valid baseline: a flipped byte, a
+// truncation, garbage. What the right exit status is depends on what the damaged bytes happen
+// to mean, so these cases are held only to "exits, never by an unrecovered panic".
+var c09Corruptions = []string{"config-flip-byte", "config-truncate", "config-empty", "config-binary", "config-is-directory", "config-yaml-shape", "source-flip-byte", "source-truncate", "gomod-flip-byte", "gomod-truncate", "gosum-garbage",
+	"template-flip-byte", "template-truncate", "template-shape", "schema-flip-byte", "schema-truncate", "schema-shape"}
+
+var c09TemplateShapes = []string{
+	"{{", "{{ .Nope.Deeper }}", "{{ index .Interfaces 99 }}", "{{ range .Interfaces }}{{ index .Methods 99 }}{{ end }}", "{{ template \"missing\" . }}", "{{ define \"x\" }}{{ template \"x\" . }}{{ end }}package p",
+	"{{ .Registry.AddImport \"\" \"\" }}package p", "{{ (index .Interfaces 0).TypeConstraint }}{{ printf \"%s\" nil }}package p", "{{ readFile \"/nonexistent\" }}", "{{ .TemplateData.nope.deeper }}package p",
+	"{{ $x := index .TemplateData \"k\" }}{{ $x.y }}package p", "{{ range $i, $m := (index .Interfaces 0).Methods }}{{ $m.Scope.AllocateName \"\" }}{{ end }}package p", "{{ exported \"\" }}{{ firstIsLower \"\" }}package p",
+	"package {{.PkgName}}\n{{ .Imports.PkgQualifier \"no/such\" }}", "{{ (index (index .Interfaces 0).Methods 0).ArgCallListSlice 5 2 }}package p", "{{ (index (index .Interfaces 0).Methods 0).ArgCallListSlice 0 99 }}package p",
+}
+
+var c09SchemaShapes = []string{
+	"[]", "42", "{\"type\": 5}", "{\"properties\": 3}", "{\"$ref\": \"#/nope\"}", "{\"$ref\": \"#\"}", "{\"type\": \"object\", \"required\": \"owner\"}", "{\"allOf\": []}", "{\"type\": [\"object\", 7]}",
+	"{\"$ref\": \"http://origin.test/other.json\"}", "{\"$schema\": \"http://nowhere.test/draft\", \"type\": \"object\"}", "{\"patternProperties\": {\"(\": {}}}", "{\"type\":\"object\",\"properties\":{\"a\":{\"$ref\":\"#/properties/a\"}}}",
+	"{\"definitions\": {\"x\": {\"$ref\": \"#/definitions/x\"}}, \"$ref\": \"#/definitions/x\"}", "{\"enum\": []}", "{\"multipleOf\": 0}", "{\"minimum\": \"zero\"}",
+}
+
+var c09YAMLShapes = []string{
+	"packages: []\n", "packages: \"str\"\n", "packages:\n  example.com/w/a: []\n", "packages:\n  example.com/w/a:\n    interfaces: \"x\"\n",
+	"packages:\n  example.com/w/a:\n    interfaces:\n      Foo: []\n", "packages:\n  example.com/w/a:\n    interfaces:\n      Foo:\n        configs: {a: 1}\n",
+	"all: \"yes\"\npackages:\n  example.com/w/a: {}\n", "template-data: \"str\"\npackages:\n  example.com/w/a: {config: {all: true}}\n",
+	"replace-type: [1, 2]\npackages:\n  example.com/w/a: {config: {all: true}}\n", "replace-type:\n  p:\n    T: \"notamap\"\npackages:\n  example.com/w/a: {config: {all: true}}\n",
+	"exclude-subpkg-regex: \"notalist\"\npackages:\n  example.com/w/a: {config: {all: true, recursive: true}}\n", "a: &a [*a]\n", "packages: &p\n  x: *p\n", "- just\n- a\n- list\n", "42\n", "null\n",
+	"packages:\n  ? [complex, key]\n  : {}\n", "packages:\n  example.com/w/a:\n    config:\n      all: true\n      all: false\n", "_anchors: {x: &x {all: true}}\npackages:\n  example.com/w/a:\n    config: *x\n",
+	"log-level: shout\npackages:\n  example.com/w/a: {config: {all: true}}\n", "build-tags: [a, b]\npackages:\n  example.com/w/a: {config: {all: true}}\n",
+}
+
+func c09Corrupt(t world.Tree, kind string, r *core.Rng) world.Tree {
+	n := t.Clone()
+	if strings.HasPrefix(kind, "template-") || strings.HasPrefix(kind, "schema-") {
+		// switch the world to a custom template with a schema file, then damage one of the two
+		n.Files["templates/probe.templ"] = probeTemplate
+		n.Files["templates/probe.templ.schema.json"] = `{"type": "object", "properties": {"owner": {"type": "string"}}}`
+		cfgLines := strings.SplitAfter(n.Files[".mockery.yml"], "\n")
+		var kept []string
+		for _, l := range cfgLines {
+			if strings.HasPrefix(l, "\"template\":") || strings.HasPrefix(l, "\"formatter\":") {
+				continue
+			}
+			kept = append(kept, l)
+		}
+		n.Files[".mockery.yml"] = "\"template\": \"file://" + world.RootPlaceholder + "/templates/probe.templ\"\n\"formatter\": \"noop\"\n\"template-data\": {\"owner\": \"me\"}\n" + strings.Join(kept, "")
+	}
+	pickSrc := func() string {
+		var srcs []string
+		for _, p := range core.SortedKeys(n.Files) {
+			if strings.HasSuffix(p, ".go") {
+				srcs = append(srcs, p)
+			}
+		}
+		return core.Pick(r, srcs)
+	}
+	flip := func(p string) {
+		b := []byte(n.Files[p])
+		if len(b) == 0 {
+			return
+		}
+		i := r.Intn(len(b))
+		b[i] ^= byte(1 << uint(r.Intn(7)))
+		n.Files[p] = string(b)
+	}
+	trunc := func(p string) {
+		b := n.Files[p]
+		n.Files[p] = b[:r.Intn(len(b)+1)]
+	}
+	switch kind {
+	case "config-flip-byte":
+		flip(".mockery.yml")
+	case "config-truncate":
+		trunc(".mockery.yml")
+	case "config-empty":
+		n.Files[".mockery.yml"] = ""
+	case "config-binary":
+		n.Files[".mockery.yml"] = "\x00\xff\xfe\x7f\x80packages\x00:\n\t- \x1b[31m"
+	case "config-is-directory":
+		delete(n.Files, ".mockery.yml")
+		n.Dirs = append(n.Dirs, ".mockery.yml")
+	case "config-yaml-shape":
+		n.Files[".mockery.yml"] = core.Pick(r, c09YAMLShapes)
+	case "source-flip-byte":
+		flip(pickSrc())
+	case "source-truncate":
+		trunc(pickSrc())
+	case "gomod-flip-byte":
+		flip("go.mod")
+	case "gomod-truncate":
+		trunc("go.mod")
+	case "gosum-garbage":
+		n.Files["go.sum"] = "not a go.sum\n\x00\n"
+	case "template-flip-byte":
+		flip("templates/probe.templ")
+	case "template-truncate":
+		trunc("templates/probe.templ")
+	case "template-shape":
+		n.Files["templates/probe.templ"] = core.Pick(r, c09TemplateShapes)
+	case "schema-flip-byte":
+		flip("templates/probe.templ.schema.json")
+	case "schema-truncate":
+		trunc("templates/probe.templ.schema.json")
+	case "schema-shape":
+		n.Files["templates/probe.templ.schema.json"] = core.Pick(r, c09SchemaShapes)
+	}
+	return n
+}
+
 type c09Spec struct {
+	corrupt string
 	world  int
 	faults []struct {
 		f  int
@@ -515,6 +623,12 @@ type c09Spec struct {
 }
 
 func c09Build(base *c09Base, all []c09Fault, sp c09Spec) c09Case {
+	if sp.corrupt != "" {
+		b := base.clone()
+		r := core.NewRng(sp.seed)
+		return c09Case{Tree: c09Corrupt(b.proj.Tree(), sp.corrupt, r), Step: world.Step{Plan: world.Plan(sp.policy, sp.seed, 0, 2001+sp.world, 500+sp.world)},
+			Faults: []string{"corrupt/" + sp.corrupt}, Expect: map[string][]string{}, Unjudged: true}
+	}
 	b := base.clone()
 	plan := world.Plan(sp.policy, sp.seed, 0, 2001+sp.world, 500+sp.world)
 	var labels []string
@@ -694,7 +808,7 @@ func c09Trigger(res world.StepResult) string {
 		lines := strings.Split(res.Stderr, "\n")
 		msg, frame := "", ""
 		for i, l := range lines {
-			if strings.HasPrefix(l, "panic:") && msg == "" {
+			if (strings.HasPrefix(l, "panic:") || strings.HasPrefix(l, "fatal error:")) && msg == "" {
 				msg = strings.TrimSpace(l)
 				if len(msg) > 80 {
 					msg = msg[:80]
@@ -767,9 +881,17 @@ func RunC09(c *core.Ctx) int {
 			specs = append(specs, sp)
 		}
 	}
+	nCorrupt := 170
+	if c.Tier == "thorough" {
+		nCorrupt = 6000
+	}
+	for k := 0; k < nCorrupt; k++ {
+		r := core.Stream(c.Seed, "c09-corrupt", k)
+		specs = append(specs, c09Spec{corrupt: c09Corruptions[k%len(c09Corruptions)], world: r.Intn(nWorlds), policy: core.Pick(r, []string{"asc", "desc", "random"}), seed: r.Uint64()})
+	}
 	single := 0
 	for _, sp := range specs {
-		if len(sp.faults) == 1 {
+		if len(sp.faults) == 1 && sp.corrupt == "" {
 			single++
 		}
 	}
@@ -818,7 +940,10 @@ func RunC09(c *core.Ctx) int {
 		"rule": "one evaluation = one child run of the instrumented mockery on (baseline world, injected fault(s) at one configuration level, map-iteration policy); the single-fault matrix (class × variant × every level where the setting is consulted × policy) is enumerated completely per baseline world, pairs of different classes are seeded; non-trivial = the world has ≥2 output files; distinct = hash(fault labels, order-decision vector, tree digest)",
 		"fault_matrix":         cl,
 		"single_fault_cases":   single,
-		"pair_cases":           len(specs) - single,
+		"pair_cases":           len(specs) - single - nCorrupt,
+		"corruption_cases":     nCorrupt,
+		"corruption_kinds":     c09Corruptions,
+		"corruption_oracle":    "damaged config / source / go.mod bytes (flipped bit, truncation, garbage, YAML type confusions, aliases): held only to 'exits, never by an unrecovered panic' — what the right status is depends on what the damaged bytes happen to mean",
 		"baseline_worlds":      nWorlds,
 		"exhaustive":           !res.BudgetEnded && res.ReplayPath == "",
 		"exhaustive_scope":     "the single-fault matrix per baseline world; pairs and worlds are sampled",
